@@ -92,13 +92,14 @@ def sum (l : List Int) : Int := l.foldl (· + ·) 0
     analysis shows the variable is not `None` (after `x is not None` / `x is None or …` / an early exit) -/
 def unwrap {α : Type} [Inhabited α] (o : Option α) : α := o.getD default
 
-/-- stable insertion used by `sorted`: `x` goes before the first `y` that must come after it
-    (`reverse = false`: first `y` with `key x < key y`; `reverse = true`: first `y` with `key y < key x`),
-    so items with equal keys keep their original order in both directions, as in Python -/
+/-- stable insertion used by `sorted` (`x` stood BEFORE the items of the list in the original order): `x`
+    goes before the first `y` that may not precede it (`reverse = false`: first `y` with `key x ≤ key y`;
+    `reverse = true`: first `y` with `key y ≤ key x`), so items with equal keys keep their original order
+    in both directions, as in Python -/
 def insSorted {α : Type} (key : α → Int) (reverse : Bool) (x : α) : List α → List α
   | [] => [x]
   | y :: ys =>
-    if (if reverse then key y < key x else key x < key y) then x :: y :: ys
+    if (if reverse then key y ≤ key x else key x ≤ key y) then x :: y :: ys
     else y :: insSorted key reverse x ys
 
 /-- `sorted(l, key=key, reverse=reverse)` (stable) -/
